@@ -1,4 +1,5 @@
-import SlugModel.Lemmas.TransEq
+import SlugModel.Lemmas.TrEq_validSymlink
+import SlugModel.Lemmas.TrEq_allowedSymlinkTarget
 /-!
 # C05 (tie by translation)
 
